@@ -313,6 +313,9 @@ func ptsField(b []byte) string {
 
 func parseLine(class, outerTag, mode string, file, pass []byte) string {
 	o := computeOracles(file, pass, mode)
+	if o.slow {
+		return ""
+	}
 	scan := file
 	if o.dec != "none" && o.dec != "err" && o.dec != "-" {
 		scan = append(bytes.Clone(file), hx.UnHex(o.dec)...)
@@ -322,19 +325,20 @@ func parseLine(class, outerTag, mode string, file, pass []byte) string {
 }
 
 func emitParse(g *hx.Gen, class, outerTag, mode string, file, pass []byte) {
-	if computeOracles(file, pass, mode).slow {
+	line := parseLine(class, outerTag, mode, file, pass)
+	if line == "" {
 		g.Stat("skipped.expensive-bcrypt-rounds")
 		return
 	}
 	g.Stat("parse." + class)
 	g.Stat("outer." + outerTag)
-	g.Emit("%s", parseLine(class, outerTag, mode, file, pass))
+	g.Emit("%s", line)
 }
 
 // ---------------------------------------------------------------- generator
 
 func gen(g *hx.Gen) {
-	n := g.Count(2000, 25000)
+	n := g.Count(1500, 20000)
 	r := g.R
 	nkg := 0
 	for i := 0; i < n; i++ {
